@@ -30,6 +30,21 @@ var shimTargets = map[string]string{
 	"json.NewEncoder":     "vfsJSONEncoder",
 }
 
+var shimLockOps = map[string]bool{"Lock": true, "RLock": true, "Unlock": true, "RUnlock": true}
+
+// shimAddressable: identifiers and chains of field selections.
+func shimAddressable(e ast.Expr) bool {
+	switch x := e.(type) {
+	case *ast.Ident:
+		return x.Name != "_"
+	case *ast.SelectorExpr:
+		return shimAddressable(x.X)
+	case *ast.ParenExpr:
+		return shimAddressable(x.X)
+	}
+	return false
+}
+
 var shimKeepAlive = map[string]string{
 	"os":            "var _ = os.Getpid",
 	"io/ioutil":     "var _ = ioutil.Discard",
@@ -66,6 +81,21 @@ func shimOverlay(repoDir, dir string) (map[string]string, error) {
 			sel, ok := call.Fun.(*ast.SelectorExpr)
 			if !ok {
 				return true
+			}
+			// lock operations X.Lock() / RLock / Unlock / RUnlock (X addressable:
+			// an identifier or a field) go through vlkOp, which is a pass-through
+			// unless a replay builds the lock-order graph of the real code
+			if len(call.Args) == 0 && shimLockOps[sel.Sel.Name] && shimAddressable(sel.X) {
+				inner := &ast.CallExpr{Fun: &ast.SelectorExpr{X: sel.X, Sel: ast.NewIdent(sel.Sel.Name)}}
+				call.Fun = ast.NewIdent("vlkOp")
+				call.Args = []ast.Expr{
+					&ast.CallExpr{Fun: ast.NewIdent("vlkID"), Args: []ast.Expr{&ast.UnaryExpr{Op: token.AND, X: sel.X}}},
+					&ast.BasicLit{Kind: token.STRING, Value: "\"" + sel.Sel.Name + "\""},
+					&ast.FuncLit{Type: &ast.FuncType{Params: &ast.FieldList{}},
+						Body: &ast.BlockStmt{List: []ast.Stmt{&ast.ExprStmt{X: inner}}}},
+				}
+				changed = true
+				return false
 			}
 			id, ok := sel.X.(*ast.Ident)
 			if !ok {
